@@ -274,10 +274,25 @@ def handle_failure(ctx, group, gcfg, hdir, target, logdir, r, known, kargs, cbmc
 
 
 def run_property(prop, tier, seed, keep=False, only=None):
+    import signal
     t0 = time.time()
     ctx = Ctx(prop, tier, seed, keep, only)
     cfg = PROPS[prop]
     ctx.scratch = tree.make_scratch(prop)
+
+    def on_signal(signum, frame):
+        # stop every solver we started and remove the scratch directory: a killed check is inconclusive
+        kanirun.kill_children()
+        if not keep:
+            tree.cleanup(ctx.scratch)
+        log("INCONCLUSIVE: property=%s interrupted by signal %d" % (prop, signum))
+        os._exit(2)
+
+    for sg in (signal.SIGTERM, signal.SIGINT, signal.SIGHUP):
+        try:
+            signal.signal(sg, on_signal)
+        except Exception:
+            pass
     rc = 0
     try:
         threads = []
